@@ -70,13 +70,33 @@ inline void shift_right(T *first, SizeType n, SizeType count) noexcept {
   (void)amc::uninitialized_relocate_n(first, n, first + count);
 }
 
+/// Undo a 'shift_right' of 'n' elements by 'count' slots when the filling of the opened slots has failed.
+/// Requirements: the first min(n, count) slots starting at 'first' hold (moved-from) objects, the other opened slots are
+/// raw memory, and the shifted elements start at 'first + count'.
+template <class T, class SizeType, typename std::enable_if<!amc::is_trivially_relocatable<T>::value, bool>::type = true>
+void undo_shift_right(T *first, SizeType n, SizeType count) noexcept(is_shift_nothrow<T>::value) {
+  std::move(first + count, first + count + n, first);
+  amc::destroy_n(first + std::max(n, count), std::min(n, count));
+}
+
+/// For trivially relocatable types all opened slots are raw memory
+template <class T, class SizeType, typename std::enable_if<amc::is_trivially_relocatable<T>::value, bool>::type = true>
+inline void undo_shift_right(T *first, SizeType n, SizeType count) noexcept {
+  (void)amc::uninitialized_relocate_n(first + count, n, first);
+}
+
 /// Fill 'count' 'v' values at memory starting at 'first', with first 'n' slots on initialized memory,
 /// and next 'count - n' slots on uninitialized memory if there is overlap
 template <class T, class SizeType, typename std::enable_if<!amc::is_trivially_relocatable<T>::value, bool>::type = true>
 inline void fill_after_shift(T *first, SizeType n, SizeType count, const T &v) {
   if (n < count) {
     std::uninitialized_fill_n(first + n, count - n, v);
-    std::fill_n(first, n, v);
+    try {
+      std::fill_n(first, n, v);
+    } catch (...) {
+      amc::destroy_n(first + n, count - n);
+      throw;
+    }
   } else {
     std::fill_n(first, count, v);
   }
@@ -1324,7 +1344,12 @@ class VectorImpl : public VectorDestr<T, Alloc, SizeType, WithInlineElements, Gr
           pV += count;  // 'v' is one of the elements that are about to be shifted
         }
         shift_right(pos, nElemsToShift, count);
-        fill_after_shift(pos, nElemsToShift, count, *pV);
+        try {
+          fill_after_shift(pos, nElemsToShift, count, *pV);
+        } catch (...) {
+          undo_shift_right(pos, nElemsToShift, count);
+          throw;
+        }
       }
       this->setSize(this->size() + count);
     } else {
@@ -1353,7 +1378,12 @@ class VectorImpl : public VectorDestr<T, Alloc, SizeType, WithInlineElements, Gr
         amc::uninitialized_copy_n(first, count, pos);
       } else {
         shift_right(pos, nElemsToShift, static_cast<SizeType>(count));
-        copy_after_shift(first, nElemsToShift, static_cast<SizeType>(count), pos);
+        try {
+          copy_after_shift(first, nElemsToShift, static_cast<SizeType>(count), pos);
+        } catch (...) {
+          undo_shift_right(pos, nElemsToShift, static_cast<SizeType>(count));
+          throw;
+        }
       }
       this->setSize(static_cast<SizeType>(this->size() + count));
     } else {
